@@ -12,7 +12,9 @@ EXPLANATION = (
     "range just tested, and fetch_ip is fetch_net(/32); (G-SCAN) block_range visits every free range (no early-terminating or skipping iterator adaptor, no break) and splits those that overlap the blocked one, which is what keeps nested free ranges consistent; (G-SPLIT) the body of that loop, reduced to a formula, removes the overlapping free range and puts back exactly its parts below and above the blocked range; (G-ENDS) new_sub offers (net.id(), net.broadcast()) and "
     "new_sub_no_ends offers (net.id()+1, net.broadcast()-1); (D-LEASE) the server's Offer carries fetch_ip()'s result, "
     "its Ack echoes the Request's address, Release returns the released address to the generator; the client's "
-    "Request echoes the Offer and the address it stores is the Ack's. Not decided: uniqueness over arbitrary "
+    "Request echoes the Offer and the address it stores is the Ack's; every pool operation of the server acts on its own "
+    "generator through the exclusive lock only (pick-and-reserve is one step under one write guard, never on a clone or "
+    "under a shared guard). Not decided: uniqueness over arbitrary "
     "block/fetch/return histories and concurrent clients (a history property over sets of ranges).")
 ASSUMPTIONS = []
 
